@@ -166,4 +166,13 @@ def main():
     sys.exit(1 if real else 0)
 
 if __name__ == '__main__':
-    main()
+    try:
+        main()
+    except SystemExit:
+        raise
+    except BaseException:
+        # an internal error of the analysis is not a verdict about the property: distinct exit status, no VIOLATION line
+        import traceback
+        traceback.print_exc()
+        print('ANALYSIS-ERROR: the checker itself failed (see traceback); no verdict')
+        sys.exit(2)
